@@ -326,7 +326,7 @@ pub fn run(ctx: &Ctx) -> i32 {
     report.assumptions = vec!["row order may differ between two dispatches: rows are aligned by event_id (or first column)".into()];
     replay_known(ctx, &stats, &mut report, &replay);
     replay_regressions(ctx, &stats, &mut report, &replay);
-    crate::props::c02::KNOWN_ID_REUSE.store(ctx.open_any("layout.segment_id_reuse"), std::sync::atomic::Ordering::Relaxed);
+    crate::props::c02::KNOWN_ID_REUSE.store(ctx.open_any("layout.stale_cache_after_id_reuse"), std::sync::atomic::Ordering::Relaxed);
     let ex = Excl { typed_strings: ctx.open("enc.typed_looking_string"), big_u64: ctx.open("enc.u64_above_i64_max"), null_string: false, min_max: ctx.open("enc.min_max_metric"), replay: ctx.open("enc.replay_unknown_typed_columns") };
     let _ = ex.null_string;
     let cases = ctx.tier.pick(96, 1500);
